@@ -105,4 +105,20 @@ def findAll12 (c : MemoCfg) (m : Memo) (v : Val12) (pat : List Int) (size : Nat)
   | .ok ms => .ok (r.1, ms)
   | .error p => .error p
 
+/-- v1 / v2 `n.Format(state, verb)` on a `*Number` value: `printFixed` creates `n.Iterator()` (an
+eager `wait(0)`, also when the formatter will not consume anything) and
+`consume2.FromIntGenerator` pulls digits while the formatter can consume — `need` calls of the
+pull iterator. `none`: not a Number (a started view has no Format). -/
+def format12 (ver : Version) (c : MemoCfg) (m : Memo) (v : Val12) (verb : Nat) (prec width : Option Nat)
+    (minus : Bool) : Option (Except Panic (Memo × String)) :=
+  match v with
+  | .nws _ _ _ => none
+  | .num sp e =>
+    let r := genNewFormatSpec ver (prec.getD 0) prec.isSome verb e
+    let need : Nat := if r.2 then r.1.sigDigits.toNat else (stringSpec ver e).sigDigits.toNat
+    let it := spec12Iterate c m sp 0 need
+    match numFormat ver e (it.2.map (·.2)) verb prec width minus with
+    | .ok s => some (.ok (it.1, s))
+    | .error p => some (.error p)
+
 end Sqroot.Model
